@@ -180,7 +180,20 @@ func (fr *Frame) inline(callee *ssa.Function, bindings []Val, args []Val, rt typ
 			sub.vals[p] = a
 		}
 	}
-	sub.run(&State{heap: fr.cur.heap, now: fr.cur.now}, fr.curR)
+	startHeap := fr.cur.heap
+	if oc := sub.ownContract(); oc != nil {
+		// the closure's ghost variables start at their declared initial values
+		sub.entry = &State{heap: startHeap, now: fr.cur.now}
+		ienv := sub.envAt(sub.entry, startHeap, "ghost variables of "+funcKey(callee))
+		for _, gv := range oc.GhostVars {
+			fam := "GV_" + funcKey(callee) + "." + gv.Name
+			vc.family(fam, specSort(gv.GType))
+			if gv.Init != nil {
+				startHeap = vc.heapSet(startHeap, fam, ienv.eval(gv.Init).T())
+			}
+		}
+	}
+	sub.run(&State{heap: startHeap, now: fr.cur.now}, fr.curR)
 	if len(sub.rets) == 0 {
 		// never returns (panics / infinite loop)
 		vc.assume(fr.curR, "false")
@@ -412,11 +425,22 @@ func (fr *Frame) applyContract(ct *Contract, sig *types.Signature, names []strin
 		post.vars[k] = v
 	}
 	bindResults(vc, post, sig, ct.Results, res)
+	var frames []frameReq
+	post.frames = &frames
 	for _, en := range ct.Ensures {
 		if mentionsGhostVar(ct, en.Src) {
 			continue // stated over the callee's own ghost variables: internal to its proof
 		}
 		vc.assume(fr.curR, post.evalAssume(en.E).T())
+	}
+	for _, fq := range frames {
+		n := vc.newHeap(hFrame)
+		n.parent = fr.cur.heap
+		n.pre = pre
+		n.cond = fq.cond
+		n.set = fq.except
+		n.oldNow = env.now
+		fr.cur.heap = n
 	}
 	for _, en := range ct.Defines {
 		vc.note("ghost definition assumed at call sites of " + calleeKey + ": " + en.Src)
@@ -593,6 +617,11 @@ func (e *Env) modTargets(m string) (locs []*Loc, fams []string) {
 		return
 	}
 	if _, isI := v.Typ.Underlying().(*types.Interface); isI {
+		if gf, ok := vc.S.Ghosts["iface."+fld]; ok {
+			fam := "H_iface." + fld
+			vc.family(fam, "(Array Int "+specSort(gf.GType)+")")
+			return []*Loc{{Fam: fam, Idx: []string{v.L[1]}, Typ: nil}}, nil
+		}
 		if gf, ok := vc.S.Ghosts[vc.typeName(v.Typ)+"."+fld]; ok {
 			fam := "H_" + vc.typeName(v.Typ) + "." + fld
 			vc.family(fam, "(Array Int "+specSort(gf.GType)+")")
@@ -925,6 +954,12 @@ func (vc *VC) modSetContractT(ct *Contract, callee *ssa.Function, set map[string
 			}
 			fld := m[i+1:]
 			if t, ok := ptypes[m[:i]]; ok && fld != "*" {
+				if _, isI := t.Underlying().(*types.Interface); isI {
+					if _, g := vc.S.Ghosts["iface."+fld]; g {
+						set["H_iface."+fld] = true
+						continue
+					}
+				}
 				T := t
 				if pt, ok := T.Underlying().(*types.Pointer); ok {
 					T = pt.Elem()
